@@ -69,7 +69,7 @@ static int mayBeRefused(unsigned long bytes)
 #define MAXBLK   (1 << 17)
 #define XM       0x5A5A5A5A5A5A5A5AUL
 #define NOPTRCODE 31
-#define LIVE_CAP (48UL << 20)
+static unsigned long LIVE_CAP = 48UL << 20;	/* cfg livecap N (MB) raises it for histories with huge blocks */
 
 enum { K_EXACT = 'e', K_INTERIOR = 'i', K_HEAP = 'h', K_DROPPED = 'd' };
 
@@ -532,6 +532,7 @@ int main(int argc, char **argv)
 			sscanf(line, "cfg %31s %lu", what, &a);
 			if (!strcmp(what, "check")) checkEvery = a ? a : 1;
 			else if (!strcmp(what, "seed")) seed0 = a;
+			else if (!strcmp(what, "livecap")) LIVE_CAP = a << 20;
 			continue;
 		}
 		step++;
